@@ -24,7 +24,8 @@ Inductive case :=
 | CShutdownExpired (exporter variant : N) (before : nat) (shutdown_returned export_returned : bool)
                    (export_err : N) (late_requests : nat) (later_err : N)
 (** WithTimeout x headers (0 none, 1 WithHeaders, 2 environment) x collector (hanging / always retry-able); see [Spec.timeout_ok]. *)
-| CTimeout (exporter headers : N) (hang : bool) (timeout_ns bound_ns : Z) (returned : bool) (err : N)
+| CTimeout (exporter headers : N) (caller_deadline_later : bool)   (* the caller's context has a deadline LATER than the configured timeout *)
+           (hang : bool) (timeout_ns bound_ns : Z) (returned : bool) (err : N)
            (elapsed_ns : Z) (late attempts : nat) (headers_ok : bool)
 (** [k] transport errors (temporary or not) injected through WithProxy before the transport works; [calls] =
     transport (proxy function) calls, [requests] = requests that reached the collector. *)
@@ -40,6 +41,9 @@ Inductive case :=
     how long after the Shutdown CALL each of them returned, requests later than 3 s after Shutdown returned. *)
 | CShutdownWait (exporter : N) (shutdown_returned export_returned : bool) (err : N)
                 (export_after_call_ns shutdown_after_call_ns : Z) (late : nat)
+(** Slow retry-able replies: every attempt takes >= delay_ns at the collector and asks for delay_ns more (in the unit
+    the client reads); MaxElapsedTime < 2 * delay_ns. *)
+| CSlow (exporter : N) (delay_ns max_ns : Z) (attempts : nat) (err : N) (elapsed_ns : Z)
 | CBurst (exporter : N) (gzip : bool) (attempts : nat) (decoded : list N) (own : list bool) (err handled : N).
 
 Definition flag (b : bool) (code : N) : list N := if b then [] else [code].
@@ -91,7 +95,7 @@ Definition check_case (c : case) : list N :=
       flag (throttled_ok max_ns min_delay_ns delays attempts bodies gaps err elapsed_ns) V_SPECFAIL
   | CShutdownExpired exporter variant before sret eret eerr late later =>
       flag (shutdown_expired_ok sret eret eerr late later) V_SPECFAIL
-  | CTimeout exporter headers hang timeout_ns bound_ns returned err elapsed_ns late attempts headers_ok =>
+  | CTimeout exporter headers caller_later hang timeout_ns bound_ns returned err elapsed_ns late attempts headers_ok =>
       flag (timeout_ok returned err elapsed_ns bound_ns late attempts headers_ok) V_SPECFAIL
   | CNetErr exporter temporary k calls requests body_ok err =>
       let m := retry_run (fun _ => 0) (fun _ => 0) (fun _ => 0) (fun _ _ => false)
@@ -120,6 +124,13 @@ Definition check_case (c : case) : list N :=
         | Detached => sret && eret && (err =? 2)%N && (shut_ns <=? 3 * NS_PER_S)                     (* Shutdown came back at once, the export went on alone *)
         end in
       if shutdown_wait_ok sret eret err exp_ns late then [] else if known then [V_KNOWN 2] else [V_SPECFAIL]
+  | CSlow exporter delay_ns max_ns attempts err elapsed_ns =>
+      (* the model under a clock that counts attempts: reading k comes after k+1 attempts and k waits of delay_ns each *)
+      let e := fun k => delay_ns + Z.of_nat k * (2 * delay_ns) in
+      let m := retry_run e e (fun _ => 0) (fun _ _ => false) {| Model.enabled := true; max_elapsed := max_ns |}
+                         [ORetry delay_ns; ORetry delay_ns; ORetry delay_ns] in
+      flag (Nat.eqb (Types.attempts m) attempts && (class_of_result (res m) =? err)%N) V_MISMATCH ++
+      flag (slow_attempt_ok max_ns attempts err elapsed_ns) V_SPECFAIL
   | CBurst exporter gzip attempts decoded own err handled =>
       let m := model_run true 0 None [RespHttp 503 None false; RespHttp 200 None false] in
       flag (Nat.eqb (Types.attempts m) attempts && (class_of_result (res m) =? err)%N &&
